@@ -112,8 +112,7 @@ def step (toks : List String) : String :=
         let s := sysvProto sysvLay ret args
         let sh := fun (r : Option RetLoc × List ArgLoc) =>
           " ".intercalate (showRetLoc r.1 :: r.2.map showArgLoc)
-        let cok := countersOk { nI := if ret.map c2mRet = some .sret then 1 else 0 } args
-        s!"P c2m {sh c} | sysv {sh s} | cok={b01 cok}"
+        s!"P c2m {sh c} | sysv {sh s}"
     | _ => "ERR parse"
   | ["merge"] =>
     let cs : List Cls := [.no, .int, .sse, .x87, .x87up, .mem]
